@@ -43,7 +43,7 @@ class Emitter:
             raise Unsupported('%s: result is not a matrix: %r' % (name, res))
         import re
         used = [(b, t) for (b, t) in it.binders if re.search(r'(?<![A-Za-z0-9_\'])%s(?![A-Za-z0-9_\'])' % re.escape(b), res.coq)]
-        order = ['M', 'Mc', 'B', 'P', 'W', 'D', 'A', 'LTL', 'GTG', 'nnls', 'reg', 's', 'dr', 'X', 'p']
+        order = ['M', 'Mc', 'B', 'P', 'W', 'D', 'A', 'cor', 'LTL', 'GTG', 'nnls', 'reg', 's', 'dr', 'X', 'x', 'p']
         used.sort(key=lambda bt: (order.index(bt[0]) if bt[0] in order else len(order), bt[0]))
         bs = ' '.join('(%s : %s)' % bt for bt in used)
         tr = '; '.join('l.%d %s -> %s' % (ln, s if len(s) < 70 else s[:67] + '...', 'T' if v else 'F')
@@ -80,9 +80,15 @@ def gen_basex(em):
     em.add('basex_core', it, it.call_function('basex_core_transform', [X, A]),
            'abel/basex.py basex_core_transform(rawdata, A)')
     # tail of get_bs_cached: A = _get_A(*_bs, ...); correction; dr scaling
-    for direction in ('forward', 'inverse'):
+    def correction_stub(it, e, args, kwargs):
+        A = args[0]
+        if not (isinstance(A, Mx) and not A.vec):
+            raise Unsupported('get_basex_correction: unexpected first argument')
+        return it.sym_mx('cor', 1, A.c, vec=True)       # depends on (A, sigma, direction) only: data independent
+
+    for direction, corr in [(d, c) for d in ('forward', 'inverse') for c in (False, True)]:
         for drname in ('dr1', 'dr'):
-            it = Interp(path)
+            it = Interp(path, stubs={'local.get_basex_correction': correction_stub})
             M, Mc = it.sym_mx('M', n, n), it.sym_mx('Mc', n, n)
             f = it.funcs['get_bs_cached']
             ifn = it.find_if('get_bs_cached', "direction == 'forward' and _trf_prm == [reg, correction, dr]")
@@ -94,7 +100,7 @@ def gen_basex(em):
                 it.globals[g] = None
             it.globals['_bs'] = [M, Mc]
             dr = 1.0 if drname == 'dr1' else it.sym_sc('dr', notone=True)
-            fr = dict(env=dict(reg=0.0, correction=False, dr=dr, direction=direction, verbose=False, n=n),
+            fr = dict(env=dict(reg=0.0, correction=corr, dr=dr, direction=direction, verbose=False, n=n, sigma=1.0),
                       globals_decl=gl, closure=None)
             it.stmt(ifn, fr)
             # the statement after the chain must be `return A`
@@ -103,9 +109,10 @@ def gen_basex(em):
                 raise Unsupported('basex.get_bs_cached does not end with `return A`')
             if body[-2] is not ifn:
                 raise Unsupported('basex.get_bs_cached: the transform-matrix chain is not the last statement before return')
-            em.add('basex_matrix_%s_%s' % (direction, drname), it, fr['env']['A'],
-                   'abel/basex.py get_bs_cached(..., reg=0.0, correction=False, dr=%s, direction=%r): '
-                   'the recalculation branch (fresh caches)' % ('1.0' if drname == 'dr1' else 'dr', direction))
+            em.add('basex_matrix_%s_%s%s' % (direction, 'corr_' if corr else '', drname), it, fr['env']['A'],
+                   'abel/basex.py get_bs_cached(..., reg=0.0, correction=%r, dr=%s, direction=%r): '
+                   'the recalculation branch (fresh caches)%s' % (corr, '1.0' if drname == 'dr1' else 'dr', direction,
+                   '; cor = get_basex_correction(A, sigma, direction)' if corr else ''))
 
 
 # --------------------------------------------------------------------------
@@ -171,6 +178,20 @@ def gen_daun(em):
                     em.add('daun_%s_deg%d_%s_%s' % (direction, degree, rname, drname), it, res,
                            'abel/daun.py daun_transform(X, reg=%r, degree=%d, dr=%s, direction=%r), 2-D data, fresh caches'
                            % (reg, degree, '1.0' if drname == 'dr1' else 'dr', direction))
+    # single-row inputs: a one-row 2-D image and a 1-D profile
+    for direction in ('forward', 'inverse'):
+        for degree in (0, 3):
+            for shape in ('onerow', '1d'):
+                it = daun_interp(path)
+                x = it.sym_mx('x', 1, n, vec=(shape == '1d'))
+                dr = it.sym_sc('dr', notone=True)
+                res = it.call_function('daun_transform', [x], dict(reg=None, degree=degree, dr=dr, direction=direction,
+                                                                   basis_dir=None, verbose=False))
+                if shape == '1d' and not res.vec:
+                    raise Unsupported('daun_transform: a 1-D input does not give a 1-D output')
+                em.add('daun_%s_deg%d_none_%s_dr' % (direction, degree, shape), it, res,
+                       'abel/daun.py daun_transform(x, reg=None, degree=%d, dr=dr, direction=%r), x = %s'
+                       % (degree, direction, 'one-row 2-D array' if shape == 'onerow' else '1-D array'))
     # the matrix returned by get_bs_cached for a Tikhonov regularisation
     for rname in ('diff', 'L2', 'L2c'):
         it = daun_interp(path)
@@ -267,6 +288,21 @@ def gen_dasch(em):
                    'abel/dasch.py _dasch_transform(X, dr=%s, direction="inverse", method=%r); %s'
                    % (drname, method, 'W = weight matrix of _bs_onion_peeling, D = inv(W)' if method == 'onion_peeling'
                       else 'D = deconvolution operator'))
+    for method in ('onion_peeling', 'two_point', 'three_point'):
+        def get_bs1(it, e, args, kwargs, method=method):
+            if args[0] != method:
+                raise Unsupported('dasch get_bs_cached called with method %r' % (args[0],))
+            if method == 'onion_peeling':
+                W = it.sym_mx('W', n, n)
+                return it.eval(asg.value, dict(env=dict(W=W), globals_decl=set(), closure=None))
+            return it.sym_mx('D', n, n)
+        for shape in ('onerow', '1d'):
+            it = Interp(path, stubs={'local.get_bs_cached': get_bs1})
+            x = it.sym_mx('x', 1, n, vec=(shape == '1d'))
+            dr = it.sym_sc('dr')
+            res = it.call_function('_dasch_transform', [x], dict(basis_dir=None, dr=dr, direction='inverse', method=method, verbose=False))
+            em.add('dasch_%s_%s_dr' % (method, shape), it, res,
+                   'abel/dasch.py _dasch_transform(x, dr=dr, method=%r), x = %s' % (method, 'one-row 2-D array' if shape == 'onerow' else '1-D array'))
     # the public wrappers pass their arguments unchanged
     for w, method in (('two_point_transform', 'two_point'), ('three_point_transform', 'three_point'),
                       ('onion_peeling_transform', 'onion_peeling')):
